@@ -82,6 +82,17 @@ fn lazy(port: u16) -> Channel {
 pub fn run(rt: &tokio::runtime::Runtime, case: Value) -> Value {
     let (gport, dport) = servers();
     rt.block_on(async move {
+        // connected channels to the two services (a tonic Channel is a cheap handle; connecting eagerly keeps a loaded
+        // machine from turning a reachable voter into an RPC error)
+        let mut gch = None;
+        let mut dch = None;
+        for _ in 0..50 {
+            if gch.is_none() { gch = Endpoint::from_shared(format!("http://127.0.0.1:{gport}")).unwrap().connect().await.ok(); }
+            if dch.is_none() { dch = Endpoint::from_shared(format!("http://127.0.0.1:{dport}")).unwrap().connect().await.ok(); }
+            if gch.is_some() && dch.is_some() { break; }
+            tokio::time::sleep(std::time::Duration::from_millis(100)).await;
+        }
+        let (gch, dch) = match (gch, dch) { (Some(a), Some(b)) => (a, b), _ => return json!("cannot connect to the in-process election services") };
         let me = case[0].as_u64().unwrap() as u32;
         let term = case[1].as_u64().unwrap();
         let voters: Vec<(u32, u64)> = case[2].as_array().unwrap().iter().map(|v| (v[0].as_u64().unwrap() as u32, v[1].as_u64().unwrap())).collect();
@@ -92,15 +103,15 @@ pub fn run(rt: &tokio::runtime::Runtime, case: Value) -> Value {
         m.expect_is_single_node_cluster().returning(|| false);
         let kinds = voters.clone();
         m.expect_get_peer_channel().returning(move |id, _| match kinds.iter().find(|(v, _)| *v == id).map(|(_, k)| *k) {
-            Some(0) => Some(lazy(gport)),
-            Some(3) => Some(lazy(dport)),
+            Some(0) => Some(gch.clone()),
+            Some(3) => Some(dch.clone()),
             Some(2) => Some(lazy(1)),
             _ => None,
         });
         let membership = Arc::new(m);
         let mut cfg = base_config();
-        cfg.retry.election.max_retries = 1;
-        cfg.retry.election.timeout_ms = 2000;
+        cfg.retry.election.max_retries = 3;
+        cfg.retry.election.timeout_ms = 5000;
         cfg.retry.election.base_delay_ms = 1;
         cfg.retry.election.max_delay_ms = 2;
         let cfg = Arc::new(cfg);
